@@ -7,6 +7,8 @@
 (* harness observed after feeding Frame(logical) to the driver in `mode`:   *)
 (*   plain / snappy            framer level (readHeader, readFrame,         *)
 (*                             parseFrame, Iter), body compressed or not    *)
+(*   sess-iter[-z]             a void / set-keyspace / schema-change result   *)
+(*                             as Query.Iter() of a live session shows it   *)
 (*   sess-prep[-z]             a PREPARED response as the application sees  *)
 (*                             it (QueryInfo handed to a binding function)  *)
 (*   sess-full / sess-skip[-z] through a live session that prepared the     *)
@@ -22,8 +24,9 @@ Init == l = 1
 Next == UNCHANGED l
 Spec == Init /\ [][Next]_l
 
-ModeComp(mode) == mode \in {"snappy", "sess-full-z", "sess-skip-z", "sess-prep-z"}
-ModeSess(mode) == mode \in {"sess-full", "sess-skip", "sess-full-z", "sess-skip-z", "sess-prep", "sess-prep-z"}
+ModeComp(mode) == mode \in {"snappy", "sess-full-z", "sess-skip-z", "sess-prep-z", "sess-iter-z"}
+ModeSess(mode) == mode \in {"sess-full", "sess-skip", "sess-full-z", "sess-skip-z", "sess-prep", "sess-prep-z", "sess-iter", "sess-iter-z"}
+ModeIter(mode) == mode \in {"sess-iter", "sess-iter-z"}
 ModeApi(mode) == mode \in {"sess-prep", "sess-prep-z"}
 
 MetaAgrees(seen, sent) ==
@@ -37,7 +40,7 @@ FieldAgrees(k, seen, sent) ==
 
 \* the fields of the view that contradict the frame
 Diff(rec) ==
-  LET exp == ExpView(rec.logical, rec.typed, ModeComp(rec.mode), ModeSess(rec.mode), ModeApi(rec.mode))
+  LET exp == ExpView(rec.logical, rec.typed, ModeComp(rec.mode), ModeSess(rec.mode), ModeApi(rec.mode), ModeIter(rec.mode))
       vw == rec.view
       top == {k \in DOMAIN exp \ {"f"} : IF k \in DOMAIN vw THEN vw[k] # exp[k] ELSE TRUE}
       inner == IF top # {} THEN {}
